@@ -122,6 +122,16 @@ static void refused_batch_case(const char* dir, uint64_t seed) { char path[512],
     else v_count("refused_batch_then_close_refused");
     unlink(path); tbl_free(t); } }
 
+/* tables at the size limits of the footer parser (10000 schema elements / columns per row group, 100000 row groups): whatever the writer
+ * accepts with OK on every call must re-open and give the same table */
+static table_t* wide_int_table(int ncols, int nrg) { table_t* t = (table_t*)calloc(1, sizeof *t); t->ncols = ncols; t->nrg = nrg; t->cols = (tcol_t*)calloc((size_t)ncols, sizeof(tcol_t)); t->codec = CARQUET_COMPRESSION_UNCOMPRESSED; t->page_size = 1 << 20; t->page_size_default = 1;
+    for (int c = 0; c < ncols; c++) { tcol_t* col = &t->cols[c]; col->type = CARQUET_PHYSICAL_INT32; col->rep = CARQUET_REPETITION_REQUIRED; snprintf(col->name, sizeof col->name, "c%d", c); }
+    t->rg = (tchunk_t**)calloc((size_t)nrg, sizeof(tchunk_t*)); t->rg_rows = (int64_t*)calloc((size_t)nrg, 8);
+    for (int g = 0; g < nrg; g++) { t->rg_rows[g] = 1; t->rg[g] = (tchunk_t*)calloc((size_t)ncols, sizeof(tchunk_t)); for (int c = 0; c < ncols; c++) { tchunk_t* k = &t->rg[g][c]; k->nlevels = 1; k->nvals = 1; k->def = (int16_t*)calloc(2, 2); k->rep = (int16_t*)calloc(2, 2); k->fixed = (uint8_t*)malloc(4); int32_t v = g * 31 + c; memcpy(k->fixed, &v, 4); k->nbatches = 1; k->batch_rows = (int64_t*)malloc(8); k->batch_rows[0] = 1; } }
+    return t; }
+static void limits_cases(const char* dir, int big) { static const int SH[][2] = {{9999, 1}, {10000, 1}, {10001, 1}, {1, 100000}, {1, 100001}}; char tag[120];
+    for (int q = 0; q < (big ? 5 : 3); q++) { table_t* t = wide_int_table(SH[q][0], SH[q][1]); snprintf(tag, sizeof tag, "limits cols=%d row_groups=%d", SH[q][0], SH[q][1]); run_case(t, dir, 600000 + q * 2, tag); v_count("tables_at_parser_limits"); tbl_free(t); } }
+
 static void codec_boundary_cases(const char* dir, uint64_t seed, int count) { char tag[160];
     static const int64_t RS[] = {1, 3, 4, 8, 11, 12, 13, 14, 15, 16, 17, 59, 60, 61, 254, 255, 256, 269, 270, 271, 524, 525, 526, 779, 780, 781, 1034, 1035, 2047, 2048, 2049, 4095, 4096, 32767, 32768, 32769, 65534, 65535, 65536, 65537};
     static const int64_t LS[] = {4, 5, 6, 7, 8, 11, 12, 14, 15, 16, 18, 19, 20, 33, 59, 60, 61, 63, 64, 65, 66, 67, 68, 69, 128, 129, 130, 131, 132, 273, 274, 275, 528, 1000, 4096, 70000};
@@ -192,7 +202,7 @@ int main(int argc, char** argv) {
         { static const int NC[] = {9, 10, 11, 12, 13, 14, 15, 16, 17, 18, 31, 32, 33, 63, 64, 65, 127, 128, 129}; static const int NG[] = {5, 6, 7, 8, 13, 14, 15, 16, 17, 31, 32, 33};
           for (int q = 0; q < (int)(sizeof NC / sizeof *NC) + (int)(sizeof NG / sizeof *NG); q++) { int wide = q < (int)(sizeof NC / sizeof *NC); tgen_t g2 = {8, 12, 0, -1, -1, -1, 0, wide ? 1 + (int)vrng_below(&R, 2) : NG[q - (int)(sizeof NC / sizeof *NC)], wide ? NC[q] : 1 + (int)vrng_below(&R, 3)};
               table_t* t = tbl_generate(&R, &g2); snprintf(tag, sizeof tag, "shape seed=%llu cols=%d row_groups=%d", (unsigned long long)seed, t->ncols, t->nrg); run_case(t, dir, 100000 + q, tag); v_count(wide ? "shape_sweep_wide_tables" : "shape_sweep_many_row_groups"); tbl_free(t); } }
-        codec_boundary_cases(dir, seed, scale >= 2 ? 600 : 120); lookalike_cases(dir, seed, scale >= 2 ? 60 : 12); level_run_cases(dir, seed, scale >= 2); create_close_only_case(dir, seed); refused_batch_case(dir, seed);
+        codec_boundary_cases(dir, seed, scale >= 2 ? 600 : 120); lookalike_cases(dir, seed, scale >= 2 ? 60 : 12); level_run_cases(dir, seed, scale >= 2); create_close_only_case(dir, seed); refused_batch_case(dir, seed); if (scale >= 1) limits_cases(dir, scale >= 2);
         v_sample("gen: %lld random tables: 1..8 columns over 7 physical types x REQUIRED/OPTIONAL, 1..4 row groups, rows 0..400 (some up to 60000), 5 codecs, page_size {1,64,1024,65536,default}, batch partitions {single,1-row,small,random incl. 0-row,halving}, interleaved columns", (long long)cases);
     } else if (!strcmp(mode, "enum")) {
         /* all (null pattern x batch partition) pairs for one OPTIONAL column of n rows; all batch partitions for a boolean column */
